@@ -251,7 +251,7 @@ async def copy_same_connector(
                     logger.info(f"COPYING from {src} to {dst} on location {location}")
                 await connector.run(
                     location=location,
-                    command=(["ln", "-snf"] if read_only else ["/bin/cp", "-rf"])
+                    command=(["ln", "-snf"] if read_only else ["/bin/cp", "-rpf"])
                     + [
                         src,
                         dst,
